@@ -69,4 +69,29 @@ theorem minpack_path_accept_implies_small_residual (tolEps tol : ℚ) (m : Minpa
     exact Or.inr ⟨trivial, hacc.2⟩
 
 
+/-- **An implicit stage solve is accepted only with a small residual, on every path** (since fix P32 the extended-precision path
+hands back the residual norm as well): whatever the three back ends report, if the consumer in `RungeKuttaIntegrator.step` accepts,
+the residual norm of the returned point - MINPACK's, `hybrj`'s or `newtontrustregion`'s, whichever produced it - is below the
+requested tolerance. -/
+theorem accept_implies_small_residual (tolEps tol : ℚ) (path : Path) (m : Minpack ℚ) (h : Hybrj ℚ) (n : Ntr ℚ)
+    (hacc : consumerAccepts (front tolEps path m h n) tol = true) :
+    ((front tolEps path m h n).via = 0 ∧ m.resNorm < tol) ∨ ((front tolEps path m h n).via = 1 ∧ h.resNorm < tol) ∨
+      ((front tolEps path m h n).via = 2 ∧ n.resNorm < tol) := by
+  rw [consumer_accepts_iff] at hacc
+  cases path with
+  | minpack =>
+    simp only [front] at hacc ⊢
+    by_cases hc : (m.success || (m.noImprovement && decide (m.resNorm ≤ tolEps))) = true
+    · simp only [hc, if_true] at hacc ⊢
+      exact Or.inl ⟨trivial, hacc.2⟩
+    · simp only [hc, Bool.false_eq_true, if_false] at hacc ⊢
+      exact Or.inr (Or.inr ⟨trivial, hacc.2⟩)
+  | hybrj =>
+    simp only [front] at hacc ⊢
+    by_cases hc : (h.success || decide (h.resNorm ≤ tolEps)) = true
+    · simp only [hc, if_true] at hacc ⊢
+      exact Or.inr (Or.inl ⟨trivial, hacc.2⟩)
+    · simp only [hc, Bool.false_eq_true, if_false] at hacc ⊢
+      exact Or.inr (Or.inr ⟨trivial, hacc.2⟩)
+
 end DVP.C15
